@@ -2,7 +2,7 @@
 Stateless exploration of thread schedules of the real libovni (harness/sched_driver.c)
 with iterative preemption bounding, plus a separate free-running ThreadSanitizer pass of
 the same scenario bodies."""
-import os, subprocess, shutil, re
+import os, subprocess, shutil, re, time
 from lib.common import Ctx, Build, Scratch, InfraError, REPO, pmap
 
 SCEN = {"a": "three threads race ovni_proc_init (distinct looms); the winner traces a full thread life and finalises",
@@ -42,7 +42,7 @@ class Server:
             self.p.kill()
 
 
-def explore_subtree(srv, sc, mode, root, bound, budget):
+def explore_subtree(srv, sc, mode, root, bound, budget, t_end=None):
     """DFS below `root` (a choice prefix).  Returns (executions, violations, outcomes, maxpoints, capped)."""
     stack = [root]
     nexec = 0
@@ -80,7 +80,7 @@ def explore_subtree(srv, sc, mode, root, bound, budget):
                 continue
             for alt in range(1, n):
                 stack.append(taken[:i] + [alt])
-        if nexec >= budget:
+        if nexec >= budget or (t_end is not None and time.time() > t_end):
             capped = bool(stack)
             break
     return nexec, viol, outcomes, maxp, capped
@@ -116,11 +116,12 @@ def run(prop, tier):
                 for alt in range(1, n):
                     roots.append([0] * i + [alt])
             per_budget = (4000 if tier == "quick" else 40000)
+            t_end = ctx.t0 + ctx.deadline_s * 0.75
 
             def work(root):
                 srv = Server(exe, os.path.join(scratch.dir, "w%d" % os.getpid()))
                 try:
-                    return explore_subtree(srv, sc, mode, root, bound, per_budget)
+                    return explore_subtree(srv, sc, mode, root, bound, per_budget, t_end)
                 finally:
                     srv.close()
             total = 1
@@ -137,7 +138,7 @@ def run(prop, tier):
                                   {"engine": "E2 sched_driver", "scenario": sc, "mode": mode, "schedule": prefix, "outcome": outcome},
                                   {"kind": "schedule", "scenario": sc})
             if anycap:
-                ctx.cap("scenario %s/%s: per-subtree budget of %d executions reached" % (sc, mode, per_budget))
+                ctx.cap("scenario %s/%s: per-subtree budget of %d executions or the deadline reached; bound %d is complete for the scenarios listed before it" % (sc, mode, per_budget, bound))
             ctx.add(evaluations=total, transitions=total, states=total)
             ctx.part("sched-%s-%s" % (sc, mode), what=SCEN[sc], schedules=total, preemption_bound=bound, max_points=maxp,
                      distinct_outcomes=sorted(outcomes))
